@@ -1,3 +1,179 @@
 import LibconfigModel.Scanner
+import LibconfigModel.Proofs.C08
+/-
+  C08 — numeric literals are stored with their exact value or rejected.
+  Statements only; helper lemmas live in LibconfigModel/Proofs/C08.lean.
+
+  The languages of the rules are given constructively (sign, digit string, suffix), so
+  every spelling is covered: any number of leading zeros and digits, both signs, L / LL.
+  `digitsVal b ds` is the positional value of the digit string `ds` in base `b`.
+-/
 namespace Libconfig.C08
+
+def signBytes : Option Bool → Bytes
+  | none => []
+  | some true => [45]      -- '-'
+  | some false => [43]     -- '+'
+
+def isNeg : Option Bool → Bool
+  | some true => true
+  | _ => false
+
+/-- 0 = no suffix, 1 = `L`, otherwise `LL` -/
+def sufBytes : Nat → Bytes
+  | 0 => []
+  | 1 => [76]
+  | _ => [76, 76]
+
+def signed (neg : Bool) (a : Nat) : Int := if neg then -(a : Int) else (a : Int)
+
+def inRange64 (v : Int) : Option Int := if fits64 v then some v else none
+
+/-- the mathematical value of a decimal/octal integer literal: a leading `0` makes it
+octal (and then every digit must be below 8), otherwise decimal -/
+def literalValue (sg : Option Bool) (ds : Bytes) : Option Int :=
+  if ds.head? = some 48 then
+    (if ds.all isOctDigit then some (signed (isNeg sg) (digitsVal 8 ds)) else none)
+  else some (signed (isNeg sg) (digitsVal 10 ds))
+
+/-! glue between the spellings above and the lemmas of `Proofs/C08.lean` -/
+theorem sufBytes_cases (suf : Nat) : sufBytes suf = [] ∨ sufBytes suf = [76] ∨ sufBytes suf = [76, 76] := by
+  match suf with
+  | 0 => exact .inl rfl
+  | 1 => exact .inr (.inl rfl)
+  | _ + 2 => exact .inr (.inr rfl)
+
+theorem splitSign_signBytes (sg : Option Bool) (ds suf : Bytes) (hne : ds ≠ [])
+    (hd : ∀ c ∈ ds, isDigit c = true) :
+    splitSign (signBytes sg ++ ds ++ suf) = (isNeg sg, ds ++ suf) := by
+  match sg with
+  | some true => rfl
+  | some false => rfl
+  | none =>
+    show splitSign ([] ++ ds ++ suf) = (false, ds ++ suf)
+    rw [List.nil_append]
+    cases ds with
+    | nil => exact absurd rfl hne
+    | cons c t => exact C08P.splitSign_digit _ (by simpa using hd c (by simp)) (by simp)
+
+/-- `libconfig_parse_integer` returns exactly the literal's value when it is representable
+in 64 bits and reports failure otherwise — for every spelling `[-+]?[0-9]+(L(L)?)?`. -/
+theorem C08_parse_integer (sg : Option Bool) (ds : Bytes) (suf : Nat) (hne : ds ≠ [])
+    (hd : ∀ c ∈ ds, isDigit c = true) :
+    parseInteger (signBytes sg ++ ds ++ sufBytes suf) = (literalValue sg ds).bind inRange64 := by
+  rw [C08P.parseInteger_core _ (isNeg sg) ds (sufBytes suf) hne hd (sufBytes_cases suf)
+    (splitSign_signBytes sg ds _ hne hd)]
+  unfold literalValue inRange64 signed C08P.sval
+  by_cases h0 : ds.head? = some 48
+  · by_cases hall : ds.all isOctDigit = true <;> simp [h0, hall]
+  · simp [h0]
+
+/-- `{integer}` rule: int when the value fits in 32 bits, else 64-bit int, else rejected. -/
+theorem C08_integer (t32 t64 e : Nat) (sg : Option Bool) (ds : Bytes) (hne : ds ≠ [])
+    (hd : ∀ c ∈ ds, isDigit c = true) :
+    numericTok (.tokInteger t32 t64 e) (signBytes sg ++ ds) =
+      match literalValue sg ds with
+      | none => (e, {})
+      | some v => if fits32 v then (t32, { ival := v }) else if fits64 v then (t64, { ival := v }) else (e, {}) := by
+  have h := C08_parse_integer sg ds 0 hne hd
+  rw [show sufBytes 0 = [] from rfl, List.append_nil] at h
+  unfold numericTok
+  simp only [h]
+  cases literalValue sg ds with
+  | none => rfl
+  | some v =>
+    simp only [Option.bind_some, inRange64]
+    by_cases h64 : fits64 v = true
+    · simp [h64]
+    · have h32 : fits32 v = false := by
+        unfold fits32 fits64 INT_MIN INT_MAX LLONG_MIN LLONG_MAX at *
+        simp at *; omega
+      simp [h64, h32]
+
+/-- `{integer64}` rule: the same value rule, forced 64-bit, rejected when it does not fit. -/
+theorem C08_integer64 (t e : Nat) (sg : Option Bool) (ds : Bytes) (suf : Nat) (hs : suf ≥ 1) (hne : ds ≠ [])
+    (hd : ∀ c ∈ ds, isDigit c = true) :
+    numericTok (.tokInteger64 t e) (signBytes sg ++ ds ++ sufBytes suf) =
+      match literalValue sg ds with
+      | none => (e, {})
+      | some v => if fits64 v then (t, { ival := v }) else (e, {}) := by
+  have _ := hs
+  unfold numericTok
+  simp only [C08_parse_integer sg ds suf hne hd]
+  cases literalValue sg ds with
+  | none => rfl
+  | some v =>
+    simp only [Option.bind_some, inRange64]
+    by_cases h64 : fits64 v = true <;> simp [h64]
+
+/-- `libconfig_parse_hex64` on `0[Xx]hexdigits(L(L)?)?` -/
+theorem C08_parse_hex (x : Nat) (hx : x = 120 ∨ x = 88) (ds : Bytes) (suf : Nat) (hne : ds ≠ [])
+    (hd : ∀ c ∈ ds, isHexDigit c = true) :
+    parseHex64 ([48, x] ++ ds ++ sufBytes suf) =
+      if digitsVal 16 ds < 18446744073709551616 then some (digitsVal 16 ds) else none := by
+  have _ := hx; have _ := hne
+  exact C08P.parseHex64_core x ds _ hd (sufBytes_cases suf)
+
+/-- `{hex}` rule: stored as the 32-bit pattern the literal spells, rejected beyond 32 bits. -/
+theorem C08_hex (t e : Nat) (x : Nat) (hx : x = 120 ∨ x = 88) (ds : Bytes) (hne : ds ≠ [])
+    (hd : ∀ c ∈ ds, isHexDigit c = true) :
+    numericTok (.tokHex t e) ([48, x] ++ ds) =
+      if digitsVal 16 ds < 4294967296 then (t, { ival := wrap32 (digitsVal 16 ds) }) else (e, {}) := by
+  have h := C08_parse_hex x hx ds 0 hne hd
+  rw [show sufBytes 0 = [] from rfl, List.append_nil] at h
+  unfold numericTok
+  simp only [h]
+  by_cases h64 : digitsVal 16 ds < 18446744073709551616
+  · by_cases h32 : digitsVal 16 ds < 4294967296
+    · have : ¬ digitsVal 16 ds > 4294967295 := by omega
+      simp [h64, h32, this]
+    · have : digitsVal 16 ds > 4294967295 := by omega
+      simp [h64, h32, this]
+  · have h32 : ¬ digitsVal 16 ds < 4294967296 := by omega
+    simp [h64, h32]
+
+/-- `{hex64}` rule: stored as the 64-bit pattern the literal spells, rejected beyond 64 bits. -/
+theorem C08_hex64 (t e : Nat) (x : Nat) (hx : x = 120 ∨ x = 88) (ds : Bytes) (suf : Nat) (hs : suf ≥ 1)
+    (hne : ds ≠ []) (hd : ∀ c ∈ ds, isHexDigit c = true) :
+    numericTok (.tokHex64 t e) ([48, x] ++ ds ++ sufBytes suf) =
+      if digitsVal 16 ds < 18446744073709551616 then (t, { ival := wrap64 (digitsVal 16 ds) }) else (e, {}) := by
+  have _ := hs
+  unfold numericTok
+  simp only [C08_parse_hex x hx ds suf hne hd]
+  by_cases h64 : digitsVal 16 ds < 18446744073709551616 <;> simp [h64]
+
+/-- the stored signed value has exactly the bit pattern spelled -/
+theorem C08_wrap32_pattern (v : Nat) (h : v < 4294967296) :
+    wrap32 v % 4294967296 = v ∧ fits32 (wrap32 v) = true := C08P.wrap32_pattern v h
+
+theorem C08_wrap64_pattern (v : Nat) (h : v < 18446744073709551616) :
+    wrap64 v % 18446744073709551616 = v ∧ fits64 (wrap64 v) = true := C08P.wrap64_pattern v h
+
+/-- `{float}` rule: the correctly rounded double, rejected exactly when that is infinite. -/
+theorem C08_float (t e : Nat) (w : Bytes) :
+    numericTok (.tokFloat t e) w =
+      if F64.isInf (F64.strtod w) then (e, {}) else (t, { fval := F64.strtod w }) := rfl
+
+/-- `ofRat` (hence `strtod`) never produces a NaN, and every result fits in 64 bits -/
+theorem C08_ofRat_not_nan (neg : Bool) (num den : Nat) (hd : den > 0) :
+    F64.isNaN (F64.ofRat neg num den) = false ∧ F64.ofRat neg num den < 2 ^ 64 :=
+  C08P.ofRat_ok neg num den hd
+
+/-- the translated actions of the numeric rules are the catalogued ones (this ties the
+theorems above to the rule numbers of the compiled scanner) -/
+theorem C08_actions :
+    Generated.scanActions.getD 37 .unknown = .tokFloat Generated.tokens.float Generated.tokens.error ∧
+    Generated.scanActions.getD 38 .unknown = .tokInteger Generated.tokens.integer Generated.tokens.integer64 Generated.tokens.error ∧
+    Generated.scanActions.getD 39 .unknown = .tokInteger64 Generated.tokens.integer64 Generated.tokens.error ∧
+    Generated.scanActions.getD 40 .unknown = .tokHex Generated.tokens.hex Generated.tokens.error ∧
+    Generated.scanActions.getD 41 .unknown = .tokHex64 Generated.tokens.hex64 Generated.tokens.error := by
+  decide
+
+/-! Non-vacuity -/
+example : numericTok (.tokInteger 259 261 277) [48, 49, 48] = (259, { ival := 8 }) := by decide          -- 010 = 8
+example : numericTok (.tokInteger64 261 277) [48, 49, 48, 76] = (261, { ival := 8 }) := by decide       -- 010L = 8
+example : numericTok (.tokInteger64 261 277) [48, 56, 76] = (277, {}) := by decide                      -- 08L rejected
+example : numericTok (.tokHex 260 277) [48, 120, 49, 70, 70, 70, 70, 70, 70, 70, 70] = (277, {}) := by decide  -- 0x1FFFFFFFF
+example : numericTok (.tokHex 260 277) [48, 120, 70, 70, 70, 70, 70, 70, 70, 70] = (260, { ival := -1 }) := by decide
+
 end Libconfig.C08
